@@ -19,7 +19,7 @@ INFO = {
     "coq_files": ["model/PolicyEval.v"],
     "trusted_base": [
         "model/PolicyEval.v c02_disc/c02_undisc are evaluated on Q (NumQ); theorems are on R; tied by paramcoq transfer (theory/PolicyEvalTransfer.v)",
-        "generated parameters (gamma, probabilities, rewards, policy entries) reach the model exactly and msdm as nearest doubles",
+        "generated parameters (gamma, probabilities, rewards, policy entries) reach the model exactly and msdm as nearest doubles; in the softmax-watch family msdm gets softmax doubles and the model rationals within a few ulp of them (largest entry corrected by ~1e-16 so the row sums to exactly 1)",
         "the policy's own state/action lists are translated to MDP indices by the harness (position in the state_list/action_list msdm reports)",
         "undiscounted cases: the absorption-time certificate tau (hypothesis of C02_undisc_expected_total_reward) is the harness' exact Fraction solve, accepted by model/PolicyEval.v:c02_tau in the same vm_compute term",
     ],
@@ -131,6 +131,57 @@ def gen_watch_case(rng):
 
 
 NEAR_ONE = ["1048575/1048576", "999999/1000000", "99999999/100000000"]     # 1 - 2^-20, 1 - 10^-6, 1 - 10^-8
+
+
+def softmax_row(rng, nA):
+    """a Boltzmann row over integer preferences whose plain left-to-right float sum is <= 1 - 3*2^-53 (a few ulp below 1);
+    returns (floats, exact rationals within a few ulp of them that sum to exactly 1)"""
+    import math
+    while True:
+        x = [rng.randint(0, 6) for _ in range(nA)]
+        e = [math.exp(v - max(x)) for v in x]
+        z = 0.0
+        for v in e:
+            z += v
+        p = [v / z for v in e]
+        t = 0.0
+        for v in p:
+            t += v
+        if t < 1 - 2.0 ** -52:
+            fr = [F(v) for v in p]
+            i = max(range(nA), key=lambda j: fr[j])
+            fr[i] += 1 - sum(fr)                          # |correction| ~ 1e-16: the policy the floats stand for
+            return p, fr
+
+
+def gen_softmax_watch_case(rng):
+    """undiscounted cycle of 2-3 states (one closed negative class, sometimes a transient entry state), 4-6 actions that
+    all move to the next state of the cycle, every policy row a softmax row whose FLOAT sum is a few ulp below 1: a leak
+    test `rowsum < 1 - eps` calls the class transient (finite values ~ -1e15 instead of -inf).  msdm gets the softmax
+    doubles verbatim; the model gets rationals within a few ulp of them that sum to exactly 1."""
+    n = rng.randint(2, 3)
+    nA = rng.randint(4, 6)
+    entry = rng.random() < .4
+    N = n + (1 if entry else 0)
+    trans, reward = {}, {}
+    for s in range(n):
+        for a in range(nA):
+            trans["%d,%d" % (s, a)] = [[(s + 1) % n, "1"]]
+            reward["%d,%d,%d" % (s, a, (s + 1) % n)] = str(-rng.randint(1, 3))
+    if entry:
+        for a in range(nA):
+            trans["%d,%d" % (n, a)] = [[rng.randrange(n), "1"]]
+    m = {"n": N, "nA": nA, "actions": [list(range(nA))] * N, "trans": trans, "reward": reward,
+         "absorbing": [False] * N, "init": [[N - 1, "1"]], "gamma": "1"}
+    rows, frows = {}, {}
+    for s in range(N):
+        p, fr = softmax_row(rng, nA)
+        rows[str(s)] = [[a, str(fr[a])] for a in range(nA)]
+        frows[str(s)] = [[a, p[a].hex()] for a in range(nA)]
+    pol = {"form": rng.choice(["tab", "tab_lists", "fun", "fun_dict", "dict"]), "rows": rows, "float_rows": frows,
+           "avail": {str(s): list(range(nA)) for s in range(N)}, "state_order": list(range(N)),
+           "action_order": list(range(nA)), "nondyadic": True}
+    return {"mdp": m, "policy": pol, "explicit_lists": False, "family": "softmax-watch"}
 
 
 def gen_near_one_case(rng):
@@ -319,6 +370,8 @@ def gen_mdp_row(rng, m, s0, exclude=()):
 def gen_case(rng, tier):
     if rng.random() < .05:
         return gen_watch_case(rng)
+    if rng.random() < .03:
+        return gen_softmax_watch_case(rng)
     if rng.random() < .06:
         return gen_corridor_case(rng)
     if rng.random() < .06:
@@ -432,6 +485,11 @@ def finish_case(rng, case):
         case["nondyadic_mdp"] = True
     if rng.random() < .25:
         case["shared_objects"] = True                     # persistent mutable lists / distributions from the callbacks
+    if rng.random() < .3:
+        case["flag_type"] = rng.choice(["int", "np.int64", "np.bool_"])   # what is_absorbing returns / flag arrays hold
+    if rng.random() < .2:
+        case["mdp_form"] = "matrices"                     # TabularMarkovDecisionProcess.from_matrices
+        case["matrix_flags_float"] = rng.random() < .5
     if rng.random() < .2:
         case["int_inputs"] = True                         # integral rewards / probabilities / discount as Python ints
     if rng.random() < .3:
@@ -547,6 +605,9 @@ def policy_views(case, res):
         dl = [coqlist("(%s, %s)" % (nat(aidx[a]), q(p)) for a, p in rows[s]) for s in sl]
         term = "(pfun %s %s %s)" % (natlist(psl), natlist(pal), coqlist(dl))
     table = None if form in ("tab", "tab_lists") else [[float(x) for x in r] for r in data]
+    if table is not None and pol.get("float_rows"):
+        fl_ = {int(s_): {a: float.fromhex(h) for a, h in r} for s_, r in pol["float_rows"].items()}
+        table = [[fl_[s_].get(b, 0.0) for b in pal_ids] for s_ in psl_ids]
     return term, exact, table, psl_ids, pal_ids
 
 
@@ -766,7 +827,8 @@ def run(ctx):
                           "reused_policy_on_other_mdp", "reused_policy_on_other_mdp_of_other_size", "nondyadic_mdp_cases",
                           "shared_mutable_object_cases", "int_typed_input_cases", "int_or_float32_policy_table_cases",
                           "n_states_equals_n_actions_cases", "single_action_cases", "decisive_tiny_policy", "decisive_tiny_transition",
-                          "decisive_tiny_initial", "decisive_tiny_termination", "decisive_tiny_termination_into_class", "corridor_cases", "long_path_cases", "decisive_tiny_probability_cases", "nondyadic", "neginf_cases", "mixed_finite_and_neginf",
+                          "decisive_tiny_initial", "decisive_tiny_termination", "decisive_tiny_termination_into_class", "corridor_cases", "softmax_watch_cases", "int_typed_absorbing_flag_cases", "from_matrices_cases",
+                          "from_matrices_int_flag_cases", "long_path_cases", "decisive_tiny_probability_cases", "nondyadic", "neginf_cases", "mixed_finite_and_neginf",
                           "occinf_cases", "q_absorbing_nonzero_cases", "policy_on_larger_state_list", "permuted_lists",
                           "stochastic_policy_rows", "oracle_agree", "explicit_lists", "zero_prob_entries", "tau_certificates_accepted",
                           "gamma_near_one_cases", "rounding_watch_cases", "multi_step_cases", "reused_policy_evaluations",
@@ -831,6 +893,10 @@ def run(ctx):
                 cnt["undiscounted" if und else "discounted"] += 1
                 cnt["gamma_near_one_cases"] += int(case.get("family") == "gamma-near-one")
                 cnt["corridor_cases"] += int(case.get("family") == "corridor")
+                cnt["softmax_watch_cases"] += int(case.get("family") == "softmax-watch")
+                cnt["int_typed_absorbing_flag_cases"] += int(case.get("flag_type") in ("int", "np.int64") and any(case["mdp"]["absorbing"]))
+                cnt["from_matrices_cases"] += int(case.get("mdp_form") == "matrices")
+                cnt["from_matrices_int_flag_cases"] += int(case.get("mdp_form") == "matrices" and case.get("flag_type") in ("int", "np.int64"))
                 cnt["decisive_tiny_probability_cases"] += int(case.get("family") == "decisive-tiny-probability")
                 cnt["long_path_cases"] += int(longest_shortest_path(pi, P, absorbing_vec(P, R, av, absf)) >= 5)
                 cnt["rounding_watch_cases"] += int(case.get("family") == "rounding-watch")
